@@ -84,7 +84,10 @@ class OsPath:
         return posixpath.normpath(p) in self.fs.dirs
 
     def isfile(self, p):
-        return posixpath.normpath(p) in self.fs.files
+        self.fs._hook('isfile ' + p)
+        p = posixpath.normpath(p)
+        self.fs.log.append(('stat', p))
+        return p in self.fs.files
 
     def getsize(self, p):
         self.fs._hook('getsize ' + p)
